@@ -347,6 +347,310 @@ theorem probeBlock_nf (thr : Int) (permOf : Row → List Nat) (ovWin : List Row)
       simp only [g2', Bool.false_eq_true, if_false, filter_eq_nil_of_any_map _ _ g2', List.foldl_nil]
   · have g1' := Bool.eq_false_iff.mpr g1
     have hKnil : K = [] := by rw [← hK]; exact filter_eq_nil_of_any_map _ _ g1'
-    simp [g1', hKnil]
+    simp [hKnil]
+
+/-! ## normal form of the whole routine -/
+
+/-- `need_idx` as a function of the batch -/
+def needIdxOf (thr : Int) (batch : List Traj) : List Nat :=
+  nonzero (batch.map fun t => probeMaskOf thr t || detectMaskOf thr t)
+
+/-- `detect_mol_idx` as a function of the batch -/
+def detIdxOf (thr : Int) (batch : List Traj) : List Nat :=
+  (needIdxOf thr batch).filter fun m => (batch.map (detectMaskOf thr)).getD m false
+
+/-- all `(full_m, i_sel, j_sel)` of the batch -/
+def tripOf (thr : Int) (permOf : Row → List Nat) (batch : List Traj) : List (Nat × Nat × Nat) :=
+  trip thr permOf (batch.map (·.ov)) (detIdxOf thr batch)
+
+/-- the batch indices whose hold-off is reset -/
+def resetIdxOf (thr : Int) (permOf : Row → List Nat) (batch : List Traj) : List Nat :=
+  ((needIdxOf thr batch).filter fun m => (batch.map (probeMaskOf thr)).getD m false).filter fun m =>
+    resetOf thr ((batch.map (·.active)).getD m 0) ((batch.map (·.prev)).getD m (-1))
+      ((batch.map (·.ov)).getD m []) (permOf ((batch.map (·.ov)).getD m []))
+
+theorem detectCore_nf (b : Bool) (n : Nat) (thr : Int) (permOf : Row → List Nat) (batch : List Traj)
+    (hb : b = true → detIdxOf thr batch = needIdxOf thr batch) :
+    detectCore b n thr permOf batch =
+      ⟨if (tripOf thr permOf batch).isEmpty then none
+        else some (scatterNF n batch.length (tripOf thr permOf batch)),
+       (resetIdxOf thr permOf batch).foldl (fun h m => h.set m 0) (batch.map (·.holdoff)),
+       tripOf thr permOf batch ++ (tripOf thr permOf batch).map fun q => (q.1, q.2.2, q.2.1)⟩ := by
+  have ez : List.zipWith (· || ·) (batch.map (probeMaskOf thr)) (batch.map (detectMaskOf thr)) =
+      batch.map fun t => probeMaskOf thr t || detectMaskOf thr t := by
+    rw [List.zipWith_map, List.zipWith_self]
+  unfold detectCore
+  simp only [ez, List.map_map, Function.comp_def]
+  by_cases g : (batch.map fun t => probeMaskOf thr t || detectMaskOf thr t).any id = true
+  · simp only [g, Bool.not_true, Bool.false_eq_true, if_false]
+    rw [probeBlock_nf]
+    exact detectBlock_nf b n batch.length thr permOf (batch.map (·.ov))
+      (batch.map (detectMaskOf thr)) (needIdxOf thr batch) _ hb
+  · have g' := Bool.eq_false_iff.mpr g
+    have hI : needIdxOf thr batch = [] := nonzeroFrom_eq_nil _ 0 g'
+    simp [g', tripOf, detIdxOf, resetIdxOf, hI, trip]
+
+/-! ## what the normal form does to trajectory `m` -/
+
+theorem getD_map_of_getElem? {α β : Type} (l : List α) (f : α → β) (d : β) (m : Nat) (a : α)
+    (h : l[m]? = some a) : (l.map f).getD m d = f a := by
+  simp [List.getD_eq_getElem?_getD, h]
+
+theorem mem_needIdxOf (thr : Int) (batch : List Traj) (m : Nat) (t : Traj) (h : batch[m]? = some t) :
+    m ∈ needIdxOf thr batch ↔ (probeMaskOf thr t || detectMaskOf thr t) = true := by
+  simp [needIdxOf, mem_nonzero, h]
+
+theorem mem_detIdxOf (thr : Int) (batch : List Traj) (m : Nat) (t : Traj) (h : batch[m]? = some t) :
+    m ∈ detIdxOf thr batch ↔ detectMaskOf thr t = true := by
+  rw [detIdxOf, List.mem_filter, mem_needIdxOf thr batch m t h, getD_map_of_getElem? _ _ _ _ _ h]
+  cases probeMaskOf thr t <;> simp
+
+theorem mem_detIdxOf_iff (thr : Int) (batch : List Traj) (m : Nat) :
+    m ∈ detIdxOf thr batch ↔ ∃ t, batch[m]? = some t ∧ detectMaskOf thr t = true := by
+  constructor
+  · intro hm
+    have hm' : m ∈ needIdxOf thr batch := (List.mem_filter.mp hm).1
+    rw [needIdxOf, mem_nonzero, List.getElem?_map] at hm'
+    cases ht : batch[m]? with
+    | none => simp [ht] at hm'
+    | some t => exact ⟨t, rfl, (mem_detIdxOf thr batch m t ht).mp hm⟩
+  · rintro ⟨t, ht, hd⟩
+    exact (mem_detIdxOf thr batch m t ht).mpr hd
+
+theorem mem_resetIdxOf (thr : Int) (permOf : Row → List Nat) (batch : List Traj) (m : Nat) (t : Traj)
+    (h : batch[m]? = some t) :
+    m ∈ resetIdxOf thr permOf batch ↔
+      (probeMaskOf thr t && resetOf thr t.active t.prev t.ov (permOf t.ov)) = true := by
+  rw [resetIdxOf, List.mem_filter, List.mem_filter, mem_needIdxOf thr batch m t h,
+    getD_map_of_getElem? _ _ _ _ _ h, getD_map_of_getElem? _ _ _ _ _ h,
+    getD_map_of_getElem? _ _ _ _ _ h, getD_map_of_getElem? _ _ _ _ _ h]
+  cases probeMaskOf thr t <;> simp
+
+theorem nodup_detIdxOf (thr : Int) (batch : List Traj) : (detIdxOf thr batch).Nodup :=
+  List.Nodup.sublist List.filter_sublist (nodup_nonzero _)
+
+/-- the crossed pairs of trajectory `t` as the specification sees them -/
+def specPairs (thr : Int) (permOf : Row → List Nat) (t : Traj) : List (Nat × Nat) :=
+  if detectMaskOf thr t then pairsOf thr t.ov (permOf t.ov) else []
+
+theorem tripOf_filter (thr : Int) (permOf : Row → List Nat) (batch : List Traj) (m : Nat) (t : Traj)
+    (h : batch[m]? = some t) :
+    (tripOf thr permOf batch).filter (fun q => q.1 == m) =
+      (specPairs thr permOf t).map (Prod.mk m) := by
+  rw [tripOf, trip, filter_flatMap_tag _ _ _ (nodup_detIdxOf thr batch),
+    getD_map_of_getElem? _ _ _ _ _ h, specPairs]
+  by_cases hd : detectMaskOf thr t = true
+  · rw [if_pos ((mem_detIdxOf thr batch m t h).mpr hd), if_pos hd]
+  · rw [if_neg (fun hm => hd ((mem_detIdxOf thr batch m t h).mp hm)), if_neg hd]; rfl
+
+theorem rowOf_nf (n nmol : Nat) (T : List (Nat × Nat × Nat)) (m : Nat) (hm : m < nmol) :
+    rowOf n (if T.isEmpty then none else some (scatterNF n nmol T)) m =
+      (T.filter fun q => q.1 == m).foldl (fun s q => s.set q.2.2 (q.2.1 : Int))
+        ((T.filter fun q => q.1 == m).foldl (fun s q => s.set q.2.1 (q.2.2 : Int))
+          (List.replicate n (-1 : Int))) := by
+  cases T with
+  | nil => simp [rowOf]
+  | cons q T =>
+    simp only [List.isEmpty_cons, Bool.false_eq_true, if_false, rowOf, List.getD_eq_getElem?_getD,
+      scatterNF]
+    rw [getElem?_foldl_setAt (fun q : Nat × Nat × Nat => q.1) (fun q => q.2.2) (fun q => (q.2.1 : Int)),
+      getElem?_foldl_setAt (fun q : Nat × Nat × Nat => q.1) (fun q => q.2.1) (fun q => (q.2.2 : Int)),
+      List.getElem?_replicate, if_pos hm]
+    rfl
+
+theorem detectCore_at (n : Nat) (thr : Int) (permOf : Row → List Nat) (batch : List Traj) (m : Nat)
+    (t : Traj) (h : batch[m]? = some t) :
+    rowOf n (detectCore false n thr permOf batch).swap m = (detectOne n thr permOf t).row ∧
+    (detectCore false n thr permOf batch).holdoff[m]? = some (detectOne n thr permOf t).holdoff ∧
+    zeroOf (detectCore false n thr permOf batch).zero m = (detectOne n thr permOf t).zero := by
+  have hm : m < batch.length := by
+    rcases List.getElem?_eq_some_iff.mp h with ⟨hlt, _⟩; exact hlt
+  rw [detectCore_nf false n thr permOf batch (by intro hb; cases hb)]
+  refine ⟨?_, ?_, ?_⟩
+  · show rowOf n (if (tripOf thr permOf batch).isEmpty then none else _) m = _
+    rw [rowOf_nf n batch.length _ m hm, tripOf_filter thr permOf batch m t h, List.foldl_map,
+      List.foldl_map]
+    rfl
+  · show (List.foldl _ _ (resetIdxOf thr permOf batch))[m]? = _
+    rw [getElem?_foldl_set_zero, List.getElem?_map, h]
+    by_cases hr : (probeMaskOf thr t && resetOf thr t.active t.prev t.ov (permOf t.ov)) = true
+    · rw [if_pos ((mem_resetIdxOf thr permOf batch m t h).mpr hr)]
+      simp [detectOne, hr]
+    · rw [if_neg (fun hm => hr ((mem_resetIdxOf thr permOf batch m t h).mp hm))]
+      simp [detectOne, hr]
+  · show zeroOf (tripOf thr permOf batch ++ _) m = _
+    have hf : (fun q : Nat × Nat × Nat => q.1 == m) ∘ (fun q : Nat × Nat × Nat => (q.1, q.2.2, q.2.1)) =
+        fun q => q.1 == m := rfl
+    rw [zeroOf, List.filter_append, List.filter_map, hf, tripOf_filter thr permOf batch m t h]
+    simp [detectOne, specPairs, List.map_map, Function.comp_def]
+
+/-- with an empty probe group `need_idx` and `detect_mol_idx` coincide -/
+theorem detIdxOf_eq_needIdxOf (thr : Int) (batch : List Traj)
+    (h : ∀ t ∈ batch, probeMaskOf thr t = false) : detIdxOf thr batch = needIdxOf thr batch := by
+  rw [detIdxOf, List.filter_eq_self]
+  intro m hm
+  have hm' := hm
+  rw [needIdxOf, mem_nonzero, List.getElem?_map] at hm'
+  cases ht : batch[m]? with
+  | none => simp [ht] at hm'
+  | some t =>
+    rw [getD_map_of_getElem? _ _ _ _ _ ht]
+    have h1 := (mem_needIdxOf thr batch m t ht).mp hm
+    have hp := h t (List.mem_iff_getElem?.mpr ⟨m, ht⟩)
+    simpa [hp] using h1
+
+theorem tripOf_eq_nil_iff (thr : Int) (permOf : Row → List Nat) (batch : List Traj) :
+    tripOf thr permOf batch = [] ↔
+      ∀ t ∈ batch, detectMaskOf thr t = true → pairsOf thr t.ov (permOf t.ov) = [] := by
+  rw [tripOf, trip, List.flatMap_eq_nil_iff]
+  constructor
+  · intro h t ht hd
+    obtain ⟨m, hm⟩ := List.mem_iff_getElem?.mp ht
+    have := h m ((mem_detIdxOf thr batch m t hm).mpr hd)
+    rw [getD_map_of_getElem? _ _ _ _ _ hm] at this
+    simpa using this
+  · intro h m hm
+    obtain ⟨t, ht, hd⟩ := (mem_detIdxOf_iff thr batch m).mp hm
+    rw [getD_map_of_getElem? _ _ _ _ _ ht, h t (List.mem_iff_getElem?.mpr ⟨m, ht⟩) hd]
+    rfl
+
+/-! ## the row of one trajectory: symmetric swaps -/
+
+theorem foldl_set_length {τ : Type} (key : τ → Nat) (val : τ → Int) (l : List τ) (s0 : List Int) :
+    (l.foldl (fun s q => s.set (key q) (val q)) s0).length = s0.length := by
+  induction l generalizing s0 with
+  | nil => rfl
+  | cons q l ih => rw [List.foldl_cons, ih, List.length_set]
+
+theorem foldl_set_untouched {τ : Type} (key : τ → Nat) (val : τ → Int) (l : List τ) (s0 : List Int)
+    (k : Nat) (h : ∀ q ∈ l, key q ≠ k) :
+    (l.foldl (fun s q => s.set (key q) (val q)) s0)[k]? = s0[k]? := by
+  induction l generalizing s0 with
+  | nil => rfl
+  | cons q l ih =>
+    rw [List.foldl_cons, ih _ (fun q' hq' => h q' (List.mem_cons_of_mem _ hq')),
+      List.getElem?_set_ne (h q List.mem_cons_self)]
+
+theorem foldl_set_written {τ : Type} (key : τ → Nat) (val : τ → Int) (l : List τ) (s0 : List Int)
+    (k : Nat) (hk : k < s0.length) (h : ∃ q ∈ l, key q = k) :
+    ∃ q ∈ l, key q = k ∧ (l.foldl (fun s q => s.set (key q) (val q)) s0)[k]? = some (val q) := by
+  induction l generalizing s0 with
+  | nil => obtain ⟨q, hq, _⟩ := h; cases hq
+  | cons q0 l ih =>
+    rw [List.foldl_cons]
+    by_cases hl : ∃ q ∈ l, key q = k
+    · obtain ⟨q, hq, hqk, hv⟩ := ih (s0.set (key q0) (val q0)) (by rw [List.length_set]; exact hk) hl
+      exact ⟨q, List.mem_cons_of_mem _ hq, hqk, hv⟩
+    · have hq0 : key q0 = k := by
+        obtain ⟨q, hq, hqk⟩ := h
+        rcases List.mem_cons.mp hq with rfl | hq
+        · exact hqk
+        · exact absurd ⟨q, hq, hqk⟩ hl
+      refine ⟨q0, List.mem_cons_self, hq0, ?_⟩
+      rw [foldl_set_untouched key val l _ k (fun q hq hqk => hl ⟨q, hq, hqk⟩), hq0,
+        List.getElem?_set_self hk]
+
+theorem mem_pairsOf (thr : Int) (ov : Row) (p : List Nat) (i j : Nat) :
+    (i, j) ∈ pairsOf thr ov p ↔ p[i]? = some j ∧ j ≠ i ∧ i < j ∧ thr ≤ ovAt ov i j := by
+  unfold pairsOf
+  rw [List.mem_filterMap]
+  constructor
+  · rintro ⟨⟨pj, i'⟩, hmem, hf⟩
+    rw [List.mk_mem_zipIdx_iff_getElem?] at hmem
+    simp only at hf
+    split at hf
+    · rename_i hc
+      simp only [Option.some.injEq, Prod.mk.injEq] at hf
+      obtain ⟨rfl, rfl⟩ := hf
+      simp only [Bool.and_eq_true, decide_eq_true_eq] at hc
+      exact ⟨hmem, hc.1.1, hc.1.2, hc.2⟩
+    · cases hf
+  · rintro ⟨h1, h2, h3, h4⟩
+    refine ⟨(j, i), List.mk_mem_zipIdx_iff_getElem?.mpr h1, ?_⟩
+    simp [h2, h3, h4]
+
+/-- the index vector is an involution on its own index range: `p[p[i]] = i` -/
+def IsInvolution (p : List Nat) : Prop := ∀ i j : Nat, p[i]? = some j → p[j]? = some i
+
+/-- **one trajectory's row is a set of symmetric swaps** when the assignment is an involution -/
+theorem buildRow_symmetric (n : Nat) (thr : Int) (ov : Row) (p : List Nat) (hp : IsInvolution p)
+    (hlen : p.length ≤ n) (i : Nat) (v : Int)
+    (h : (buildRow n (pairsOf thr ov p))[i]? = some v) (hv : 0 ≤ v) :
+    (buildRow n (pairsOf thr ov p))[v.toNat]? = some (i : Int) ∧ (i : Int) ≠ v := by
+  -- facts about the pairs
+  have P1 : ∀ q ∈ pairsOf thr ov p, p[q.1]? = some q.2 ∧ q.1 < q.2 ∧ p[q.2]? = some q.1 ∧ q.2 < n := by
+    intro q hq
+    have hm := (mem_pairsOf thr ov p q.1 q.2).mp hq
+    have h2 := hp _ _ hm.1
+    refine ⟨hm.1, hm.2.2.1, h2, ?_⟩
+    rcases List.getElem?_eq_some_iff.mp h2 with ⟨hlt, _⟩
+    omega
+  have P2 : ∀ q ∈ pairsOf thr ov p, ∀ q' ∈ pairsOf thr ov p, q.1 = q'.1 → q.2 = q'.2 := by
+    intro q hq q' hq' e
+    have a := (P1 q hq).1
+    have b := (P1 q' hq').1
+    rw [e, b] at a
+    exact (Option.some.inj a).symm
+  have P3 : ∀ q ∈ pairsOf thr ov p, ∀ q' ∈ pairsOf thr ov p, q.2 = q'.2 → q.1 = q'.1 := by
+    intro q hq q' hq' e
+    have a := (P1 q hq).2.2.1
+    have b := (P1 q' hq').2.2.1
+    rw [e, b] at a
+    exact (Option.some.inj a).symm
+  have P4 : ∀ q ∈ pairsOf thr ov p, ∀ q' ∈ pairsOf thr ov p, q'.2 ≠ q.1 := by
+    intro q hq q' hq' e
+    have a := (P1 q hq).1
+    have b := (P1 q' hq').2.2.1
+    rw [e, a] at b
+    have := Option.some.inj b
+    have h1 := (P1 q hq).2.1
+    have h2 := (P1 q' hq').2.1
+    omega
+  -- the two folds
+  unfold buildRow at h ⊢
+  simp only at h ⊢
+  generalize hs1 : (pairsOf thr ov p).foldl (fun s q => s.set q.1 (q.2 : Int))
+    (List.replicate n (-1 : Int)) = s1 at h ⊢
+  have hl1 : s1.length = n := by
+    rw [← hs1, foldl_set_length (fun q : Nat × Nat => q.1) (fun q => (q.2 : Int))]; simp
+  have hin : i < n := by
+    rcases List.getElem?_eq_some_iff.mp h with ⟨hlt, _⟩
+    rw [foldl_set_length (fun q : Nat × Nat => q.2) (fun q => (q.1 : Int)), hl1] at hlt
+    exact hlt
+  by_cases hA : ∃ q ∈ pairsOf thr ov p, q.2 = i
+  · obtain ⟨q, hq, hqi, hval⟩ := foldl_set_written (fun q : Nat × Nat => q.2) (fun q => (q.1 : Int))
+      (pairsOf thr ov p) s1 i (by omega) hA
+    rw [hval] at h
+    have hvq : v = (q.1 : Int) := (Option.some.inj h).symm
+    subst hvq
+    rw [Int.toNat_natCast]
+    have hlt := (P1 q hq).2.1
+    refine ⟨?_, by omega⟩
+    rw [foldl_set_untouched (fun q : Nat × Nat => q.2) (fun q => (q.1 : Int)) _ s1 q.1
+      (fun q' hq' => P4 q hq q' hq')]
+    obtain ⟨q'', hq'', hk, hv''⟩ := foldl_set_written (fun q : Nat × Nat => q.1)
+      (fun q => (q.2 : Int)) (pairsOf thr ov p) (List.replicate n (-1 : Int)) q.1
+      (by simp; omega) ⟨q, hq, rfl⟩
+    rw [hs1] at hv''
+    rw [hv'', P2 q'' hq'' q hq hk, hqi]
+  · have hA' : ∀ q ∈ pairsOf thr ov p, q.2 ≠ i := fun q hq e => hA ⟨q, hq, e⟩
+    rw [foldl_set_untouched (fun q : Nat × Nat => q.2) (fun q => (q.1 : Int)) _ s1 i hA'] at h
+    by_cases hB : ∃ q ∈ pairsOf thr ov p, q.1 = i
+    · obtain ⟨q, hq, hqi, hval⟩ := foldl_set_written (fun q : Nat × Nat => q.1)
+        (fun q => (q.2 : Int)) (pairsOf thr ov p) (List.replicate n (-1 : Int)) i (by simpa using hin) hB
+      rw [hs1, h] at hval
+      have hvq : v = (q.2 : Int) := Option.some.inj hval
+      subst hvq
+      rw [Int.toNat_natCast]
+      have hlt := (P1 q hq).2.1
+      refine ⟨?_, by omega⟩
+      obtain ⟨q', hq', hk, hv'⟩ := foldl_set_written (fun q : Nat × Nat => q.2)
+        (fun q => (q.1 : Int)) (pairsOf thr ov p) s1 q.2 (by have := (P1 q hq).2.2.2; omega) ⟨q, hq, rfl⟩
+      rw [hv', P3 q' hq' q hq hk, hqi]
+    · have hB' : ∀ q ∈ pairsOf thr ov p, q.1 ≠ i := fun q hq e => hB ⟨q, hq, e⟩
+      rw [← hs1, foldl_set_untouched (fun q : Nat × Nat => q.1) (fun q => (q.2 : Int)) _ _ i hB',
+        List.getElem?_replicate, if_pos hin] at h
+      have : v = -1 := (Option.some.inj h).symm
+      omega
 
 end Crossing
